@@ -1,3 +1,4 @@
+-- NOTE (round 7): sharper constants and partial absolute bounds are in FF17Abs.lean / FF17AbsB.lean; the reduction of the 11/9 gap is in FFD119Gap.lean / FFD119GapB.lean.
 /-
   PrtpyProofs.FFD119 — property C09, towards Johnson's theorem `FFD ≤ 11/9 · OPT + c` for `ffDecreasing`
   (and `bfDecreasing`, and every any-fit rule on a sorted input) against `Packable B m`.
